@@ -418,10 +418,22 @@ pub fn gen_c19(c: &mut Choices) -> Case {
             let mut eg = EmitGen { g: &mut g };
             eg.enc(&names, 0)
         };
+        // Vue declares `SetupContext<E, S extends SlotsType = {}>`: the slots argument may be given
+        let slots = match g.c.pick(5) {
+            0 => {
+                g.label("setup-context-with-slots-argument");
+                ", {}"
+            }
+            1 => {
+                g.label("setup-context-with-slots-argument");
+                ", SlotsType<{ default: () => any }>"
+            }
+            _ => "",
+        };
         second = match g.c.pick(3) {
-            0 => format!(", ctx: SetupContext<{enc}>"),
-            1 => format!(", {{ emit }}: SetupContext<{enc}>"),
-            _ => format!(", {{ emit, attrs }}: SetupContext<{enc}>"),
+            0 => format!(", ctx: SetupContext<{enc}{slots}>"),
+            1 => format!(", {{ emit }}: SetupContext<{enc}{slots}>"),
+            _ => format!(", {{ emit, attrs }}: SetupContext<{enc}{slots}>"),
         };
     }
     let local = !negative && g.c.chance(1, 6);
@@ -456,7 +468,7 @@ impl Property for C19 {
         "C19"
     }
     fn rule(&self) -> String {
-        "event-name sets (1-5 names incl. ':' and '-') x encodings of SetupContext<E>: function type, union of function types, type literal and interface with 1-2 call signatures (names duplicated across signatures), extends chains, property / method syntax, first-parameter types that are literal unions, aliases of literal unions (1-2 hops) and nested unions, intersections, aliases; exported / local declarations, before / after the call; arrow / function / destructured / defaulted setup; second parameter as identifier or destructuring pattern. Negatives: no second parameter, no annotation, an annotation that is not SetupContext<...>. Oracle: the mock defineComponent records its options: new Set(options.emits) == declared names (no extras, none missing); negatives: no emits key. non-trivial = >=2 encodings combined, an alias hop, a declaration after use, or a negative; distinct by hash(source)".into()
+        "event-name sets (1-5 names incl. ':' and '-') x encodings of SetupContext<E> (optionally with the slots argument, SetupContext<E, S>): function type, union of function types, type literal and interface with 1-2 call signatures (names duplicated across signatures), extends chains, property / method syntax, first-parameter types that are literal unions, aliases of literal unions (1-2 hops) and nested unions, intersections, aliases; exported / local declarations, before / after the call; arrow / function / destructured / defaulted setup; second parameter as identifier or destructuring pattern. Negatives: no second parameter, no annotation, an annotation that is not SetupContext<...>. Oracle: the mock defineComponent records its options: new Set(options.emits) == declared names (no extras, none missing); negatives: no emits key. non-trivial = >=2 encodings combined, an alias hop, a declaration after use, or a negative; distinct by hash(source)".into()
     }
     fn assumptions(&self) -> Vec<String> {
         vec!["TS eraser (harness) strips types before evaluation".into()]
